@@ -4,12 +4,14 @@ import (
 	"bytes"
 	"crypto/sha1"
 	"fmt"
+	"io"
 	"io/ioutil"
 	"os"
 	"os/exec"
 	"path/filepath"
 	"sort"
 	"strings"
+	"syscall"
 	"time"
 
 	"github.com/go-gts/gts/seqio"
@@ -56,6 +58,12 @@ func (s *sandbox) entries() int {
 
 // run the binary: args, stdin bytes, optional -o file
 func (s *sandbox) run(args []string, stdin []byte, tofile bool, nocache bool) runResult {
+	return s.runFrom(args, bytes.NewReader(stdin), tofile, nocache)
+}
+
+// runFrom: standard input is any reader; an *os.File is handed to the child as
+// its descriptor 0 as it is (same open file, same offset)
+func (s *sandbox) runFrom(args []string, stdin io.Reader, tofile bool, nocache bool) runResult {
 	a := append([]string(nil), args...)
 	if nocache {
 		a = append(a, "--no-cache")
@@ -68,7 +76,7 @@ func (s *sandbox) run(args []string, stdin []byte, tofile bool, nocache bool) ru
 	cmd := exec.Command(gtsBin, a...)
 	cmd.Env = []string{"XDG_CACHE_HOME=" + filepath.Join(s.dir, "cache"), "HOME=" + filepath.Join(s.dir, "home"),
 		"TMPDIR=" + filepath.Join(s.dir, "tmp"), "PATH=/usr/bin:/bin"}
-	cmd.Stdin = bytes.NewReader(stdin)
+	cmd.Stdin = stdin
 	var so, se bytes.Buffer
 	cmd.Stdout, cmd.Stderr = &so, &se
 	err := cmd.Run()
@@ -110,11 +118,11 @@ func runC14(o *Out) {
 	full, _ := ioutil.ReadFile(td + "NC_001422.gb")
 	fa, _ := ioutil.ReadFile(td + "NC_001422_part.fasta")
 	inputs := map[string][]byte{
-		"part.gb":   gb,
-		"two.gb":    append(append([]byte(nil), gb...), gb...),
-		"part.fa":   fa,
-		"trunc.gb":  full[:3000],
-		"garbage":   []byte("this is not a sequence file\n"),
+		"part.gb":  gb,
+		"two.gb":   append(append([]byte(nil), gb...), gb...),
+		"part.fa":  fa,
+		"trunc.gb": full[:3000],
+		"garbage":  []byte("this is not a sequence file\n"),
 	}
 	inputOrder := []string{"part.gb", "two.gb", "part.fa", "trunc.gb", "garbage"}
 	if o.Tier == "thorough" {
@@ -205,7 +213,11 @@ func runC14(o *Out) {
 		mk("query", "-n", "product", "-n", "locus_tag", "-n", "gene"),
 		mk("define", "gene", "complement(3..9)", "-q", "gene=y", "-q", "note=x"),
 		mk("search", "@tttt", "-k", "primer", "-q", "note=p", "-q", "label=q"), mk("search", "@tttt", "-k", "primer", "-q", "label=q", "-q", "note=p"),
-		mk("extract", "gene", "10..40"))
+		mk("extract", "gene", "10..40"),
+		// one value that contains a blank vs two values: never the same request
+		mk("query", "-n", "gene product"), mk("query", "-n", "product gene"),
+		mk("define", "gene", "complement(3..9)", "-q", "gene=y note=x"), mk("define", "gene", "complement(3..9)", "-q", "gene=y", "-q", "note=x", "-q", "z"),
+		mk("search", "@tttt", "-k", "primer", "-q", "note=p label=q"), mk("extract", "gene 10..40"), mk("extract", "10..40", "gene"))
 	cfgs = append(cfgs, mk("query", "-n", "gene"), mk("query", "-n", "gene", "-n", "product"), mk("query", "-d", ","), mk("query", "-t", ";"),
 		mk("summary"), mk("summary", "-F"), mk("summary", "-Q"), mk("summary", "-F", "-Q"))
 
@@ -390,6 +402,8 @@ func runC14(o *Out) {
 			}
 		}
 		o.Case("secondary-history", true, "cache_hist ("+strings.Join(hs, " ")+")", "ok ("+strings.Join(cs, " ")+")")
+		scenarioStdinOffset(o, gb, aux)
+		scenarioInterrupted(o, gb)
 		// different primary inputs on stdin under one command line
 		var hs2, cs2 []string
 		s4 := newSandbox()
@@ -443,4 +457,79 @@ func runC14(o *Out) {
 		}
 	}
 	rec(nil)
+}
+
+// standard input is a regular file that the parent has already read a part of:
+// the command sees the rest, with and without the cache, cold and warm, and two
+// files that share only that rest are different inputs
+func scenarioStdinOffset(o *Out, gb []byte, aux string) {
+
+	s5 := newSandbox()
+	fa := filepath.Join(aux, "stdin-a")
+	fb := filepath.Join(aux, "stdin-b")
+	headA, headB := []byte("# consumed by the parent: first file\n"), []byte(">other\nacgtacgtacgt\n")
+	ioutil.WriteFile(fa, append(append([]byte(nil), headA...), gb...), 0644)
+	ioutil.WriteFile(fb, append(append([]byte(nil), headB...), gb...), 0644)
+	at := func(path string, off int, nocache bool) runResult {
+		f, err := os.Open(path)
+		if err != nil {
+			return runResult{code: -2}
+		}
+		defer f.Close()
+		f.Seek(int64(off), io.SeekStart)
+		return s5.runFrom([]string{"reverse"}, f, false, nocache)
+	}
+	wantRest := s5.run([]string{"reverse"}, gb, false, true)
+	wantWholeB := s5.run([]string{"reverse"}, append(append([]byte(nil), headB...), gb...), false, true)
+	for i, st := range []struct {
+		path string
+		off  int
+		want runResult
+	}{{fa, len(headA), wantRest}, {fa, len(headA), wantRest}, {fb, len(headB), wantRest}, {fb, 0, wantWholeB}, {fb, len(headB), wantRest}} {
+		if ref := at(st.path, st.off, true); !sameResult(ref, st.want) {
+			o.Violate("stdin-offset-nocache", fmt.Sprintf("gts reverse --no-cache < %s at offset %d (step %d)", filepath.Base(st.path), st.off, i), "")
+		}
+		if got := at(st.path, st.off, false); !sameResult(got, st.want) {
+			o.Violate("stdin-offset-not-transparent", fmt.Sprintf("gts reverse < %s at offset %d (step %d)", filepath.Base(st.path), st.off, i),
+				fmt.Sprintf("exit %d vs %d, stdout sha1 %x vs %x", got.code, st.want.code, sha1.Sum(got.stdout), sha1.Sum(st.want.stdout)))
+		}
+	}
+	s5.close()
+
+}
+
+// a run that is interrupted (SIGTERM / SIGINT while blocked on a full output
+// pipe) leaves nothing that makes the next identical run differ from --no-cache
+func scenarioInterrupted(o *Out, gb []byte) {
+
+	s6 := newSandbox()
+	big := bytes.Repeat(gb, 400)
+	want := s6.run([]string{"reverse"}, big, false, true)
+	for _, sig := range []os.Signal{syscall.SIGTERM, syscall.SIGINT} {
+		cmd := exec.Command(gtsBin, "reverse")
+		cmd.Env = []string{"XDG_CACHE_HOME=" + filepath.Join(s6.dir, "cache"), "HOME=" + filepath.Join(s6.dir, "home"),
+			"TMPDIR=" + filepath.Join(s6.dir, "tmp"), "PATH=/usr/bin:/bin"}
+		cmd.Stdin = bytes.NewReader(big)
+		pr, pw, err := os.Pipe()
+		if err != nil {
+			continue
+		}
+		cmd.Stdout = pw
+		if cmd.Start() == nil {
+			pw.Close()
+			time.Sleep(700 * time.Millisecond) // the child fills the pipe and blocks
+			cmd.Process.Signal(sig)
+			time.Sleep(300 * time.Millisecond)
+			io.Copy(ioutil.Discard, pr)
+			cmd.Wait()
+		}
+		pr.Close()
+		got := s6.run([]string{"reverse"}, big, false, false)
+		if !sameResult(got, want) {
+			o.Violate("interrupted-run-replayed", fmt.Sprintf("gts reverse interrupted by %v, then run again", sig),
+				fmt.Sprintf("exit %d vs %d, %d vs %d bytes", got.code, want.code, len(got.stdout), len(want.stdout)))
+		}
+	}
+	s6.close()
+
 }
